@@ -76,6 +76,10 @@ type hdr struct {
 	rbuf  []byte
 }
 
+// maxPrealloc is the largest message size for which Recv allocates (twice)
+// the declared Content-Length up front.
+const maxPrealloc = 4 << 20
+
 // Send implements part of the Channel interface.
 func (h *hdr) Send(msg []byte) error {
 	h.buf.Reset()
@@ -139,6 +143,19 @@ func (h *hdr) Recv() ([]byte, error) {
 	// We need to use ReadFull here because the buffered reader may not have a
 	// big enough buffer to deliver the whole message, and will only issue a
 	// single read to the underlying source.
+	if size > maxPrealloc && size > len(h.rbuf) {
+		// Do not allocate on the say-so of the header alone: a corrupt or
+		// hostile length would panic or exhaust memory before a single body
+		// byte is read. Grow the buffer as the data actually arrive.
+		var buf bytes.Buffer
+		if n, err := io.CopyN(&buf, h.rd, int64(size)); err != nil {
+			if err == io.EOF && n > 0 {
+				err = io.ErrUnexpectedEOF
+			}
+			return nil, err
+		}
+		return buf.Bytes(), contentErr
+	}
 	data := h.rbuf
 	if len(data) < size || len(data) > (1<<20) && size < len(data)/4 {
 		data = make([]byte, size*2)
